@@ -127,11 +127,16 @@ def gen_location(rng, n, tier="quick"):
         info = LocationInfo(rng.choice(["A", "Greenwich", "x y"]), rng.choice(["R", "England", ""]),
                             rng.choice(TZ_NAMES + OLD_TZ_NAMES), rng.uniform(-90, 90), rng.uniform(-180, 180))
         loc = Location(info)
+        if rng.random() < 0.05:
+            # the documented default location: Greenwich (values from the documentation, not read
+            # back from the object)
+            loc = Location()
+            info = LocationInfo("Greenwich", "England", "Europe/London", 51.4733, -0.0008333)
         history = []
         # what the object's zone must be by the property, tracked independently of the object:
         # an accepted assignment sets it, a rejected one leaves it as it was
         shadow_tz = info.timezone
-        shadow = {"latitude": loc.latitude, "longitude": loc.longitude}
+        shadow = {"latitude": info.latitude, "longitude": info.longitude}
         # one object, a history that interleaves attribute assignments and method calls
         # (reading .observer / .info in between): stale per-object caches show up
         for _step in range(rng.randint(4, 14)):
